@@ -25,7 +25,11 @@ def enumerate_states(tier):
             if len(w) > 2 and vi != 0:
                 continue
             states.append(dict(key="m%d_%s" % (vi, "_".join(w) or "empty"), items=list(w), vis=vis))
-    transitions += sum(3 for w in words if len(w) <= 2)
+        if len(w) <= 2:
+            # the method set does not depend on the other options: exporting invocation, mock options
+            states.append(dict(key="mx_%s" % ("_".join(w) or "empty"), items=list(w), vis="pub", opts="entrait_export"))
+            states.append(dict(key="mo_%s" % ("_".join(w) or "empty"), items=list(w), vis="pub(crate)", opts="export_mockall"))
+    transitions += sum(5 for w in words if len(w) <= 2)
     # module bodies stamped out by macro_rules: fn bodies / types / expressions arrive as invisible groups
     for k in STAMPED:
         states.append(dict(key="ms_" + k, items=[], vis="pub", stamped=k))
@@ -40,6 +44,8 @@ STAMPED = {
                    "{ 1 }, u32", ["a1", "a2", "a4"], "a1=1,a2=2,a4=4"),
     "expr_items": ("($e:expr, $t:ty)", "pub const K: $t = $e;\n        pub fn a1(deps: &impl ::core::any::Any) -> $t { $e }\n        pub static S: $t = $e;\n        pub fn a2(deps: &impl ::core::any::Any) -> $t { 2 }",
                    "1, u32", ["a1", "a2"], "a1=1,a2=2"),
+    "item_frag": ("($i:item, $s:item)", "pub fn a1(deps: &impl ::core::any::Any) -> u32 { 1 }\n        $i\n        pub fn a3(deps: &impl ::core::any::Any) -> u32 { 3 }\n        $s\n        pub(crate) fn a5(deps: &impl ::core::any::Any) -> u32 { 5 }",
+                  "fn p2(deps: &impl ::core::any::Any) -> u32 { 2 }, pub struct S4 { pub f: u8 }", ["a1", "a3", "a5"], "a1=1,a3=3,a5=5"),
     "vis_ident": ("($v:vis, $n:ident)", "$v fn $n(deps: &impl ::core::any::Any) -> u32 { 1 }\n        pub fn a2(deps: &impl ::core::any::Any) -> u32 { 2 }",
                   "pub(crate), a1", ["a1", "a2"], "a1=1,a2=2"),
 }
@@ -94,7 +100,8 @@ def render(s):
         return render_stamped(s)
     key = s["key"]
     L = ["mod %s {" % key, "    use super::rt;"]
-    L.append("    #[::entrait::entrait(%s)]" % (s["vis"].replace("KEY", key) + " Tr").strip())
+    mac, extra = {None: ("entrait", ""), "entrait_export": ("entrait_export", ""), "export_mockall": ("entrait", ", export, mockall = false, ?Send")}[s.get("opts")]
+    L.append("    #[::entrait::%s(%s%s)]" % (mac, (s["vis"].replace("KEY", key) + " Tr").strip(), extra))
     L.append("    pub mod m {")
     for n, sym in enumerate(s["items"], 1):
         L.append("    " + gen.mod_item_src(sym, n, key))
@@ -127,7 +134,7 @@ def render(s):
 
 
 def tags_of(s):
-    return {"item:" + x for x in s["items"]} | {"vis:" + (s["vis"] or "none")} | ({"stamped:" + s["stamped"]} if s.get("stamped") else set())
+    return {"item:" + x for x in s["items"]} | {"vis:" + (s["vis"] or "none"), "opts:" + (s.get("opts") or "none")} | ({"stamped:" + s["stamped"]} if s.get("stamped") else set())
 
 
 def evaluate(states, report, tier):
